@@ -26,7 +26,7 @@ import (
 
 type c16RunPlan struct {
 	Scenario  string `json:"scenario"`
-	Mode      string `json:"mode"` // users | drops
+	Mode      string `json:"mode"` // users | drops | interrupt (N iterations, then every worker is inside an iteration when the run is interrupted; those end 80 ms later)
 	N         int    `json:"n"`
 	FailEvery int    `json:"fail_every"`
 	SetupFail bool   `json:"setup_fail"`
@@ -96,7 +96,7 @@ func init() {
 				same := r.IntN(2) == 0
 				base := c16Names[r.IntN(len(c16Names))]
 				for k := 0; k < nr; k++ {
-					rp := c16RunPlan{Scenario: base, Mode: pick(r, "users", "users", "drops"), N: 5 + r.IntN(40), FailEvery: pick(r, 0, 1, 2, 3, 7), Tick: 3 + r.IntN(20)}
+					rp := c16RunPlan{Scenario: base, Mode: pick(r, "users", "users", "drops", "interrupt"), N: 5 + r.IntN(40), FailEvery: pick(r, 0, 1, 2, 3, 7), Tick: 3 + r.IntN(20)}
 					if !same {
 						rp.Scenario = c16Names[r.IntN(len(c16Names))]
 					}
@@ -124,7 +124,15 @@ func init() {
 			}
 			// the public API: static labels and a logger given to one f1 instance in either order, a real command
 			// line, the process-wide registry (one fresh process per case: that registry is built once)
-			for i := 0; i < 8; i++ {
+			for i := 0; i < 10; i++ {
+			if i >= 8 {
+				// a program that times a stage per endpoint (dozens of names) and whose first failures come late
+				cse := core.MkCase("C16", "cli", i, seed, map[string]int{"order": i % 2, "stages": 60 + 15*(i-8)})
+				cse.Solo = true
+				cse.TimeoutMS = 60000
+				cs = append(cs, cse)
+				continue
+			}
 				// from the fifth on: no push gateway (the setup series is still recorded and labelled), or the program looks at
 				// the metrics (pkg/f1/metrics GetMetrics) before its first command line
 				cse := core.MkCase("C16", "cli", i, seed, map[string]int{"order": i % 2, "fail": i / 2 % 2, "nogw": []int{0, 0, 0, 0, 1, 1, 0, 1}[i], "early": []int{0, 0, 0, 0, 0, 0, 1, 1}[i]})
@@ -172,6 +180,13 @@ func c16CLI(c *core.Case, o *core.Outcome) {
 				setupT.Time("warm-up", func() {})
 			}
 			k := n.Add(1)
+			if ns := int64(pp["stages"]); ns > 0 {
+				t.Time(fmt.Sprintf("endpoint-%d", k%ns), func() {})
+				if k > ns+10 {
+					t.Fail()
+				}
+				return
+			}
 			if k%3 == 0 {
 				// a stage of the program's own: its timings are not iterations, whatever it is called
 				t.Time([]string{"Iteration", "ITERATION", "iteration "}[k/3%3], func() {})
@@ -181,8 +196,14 @@ func c16CLI(c *core.Case, o *core.Outcome) {
 			}
 		}
 	})
-	err := inst.ExecuteWithArgs([]string{"run", "users", "-c", "2", "-i", "6", "-d", "30s", "--max-failures", "10", "cliScenario"})
-	desc := fmt.Sprintf("order=%d fail=%d no-gateway=%d metrics-looked-at-first=%d labels=%v", pp["order"], pp["fail"], pp["nogw"], pp["early"], labels)
+	total := 6
+	args := []string{"run", "users", "-c", "2", "-i", "6", "-d", "30s", "--max-failures", "10", "cliScenario"}
+	if ns := pp["stages"]; ns > 0 {
+		total = ns + 25
+		args = []string{"run", "users", "-c", "1", "-i", fmt.Sprint(total), "-d", "30s", "--max-failures", "100", "cliScenario"}
+	}
+	err := inst.ExecuteWithArgs(args)
+	desc := fmt.Sprintf("order=%d fail=%d no-gateway=%d metrics-looked-at-first=%d stage-names=%d labels=%v", pp["order"], pp["fail"], pp["nogw"], pp["early"], pp["stages"], labels)
 	if err != nil {
 		o.Violate("cli-run:"+desc, "the run returned %v (%s)", err, desc)
 		return
@@ -194,6 +215,7 @@ func c16CLI(c *core.Case, o *core.Outcome) {
 	}
 	seen := 0
 	var samples, setupSamples uint64
+	perResult := map[string]uint64{}
 	for _, mf := range mfs {
 		if mf.GetName() != engine.IterationFamily && mf.GetName() != engine.SetupFamily {
 			continue
@@ -210,6 +232,7 @@ func c16CLI(c *core.Case, o *core.Outcome) {
 			}
 			if mf.GetName() == engine.IterationFamily && got["stage"] == "iteration" {
 				samples += m.GetSummary().GetSampleCount()
+				perResult[got["result"]] += m.GetSummary().GetSampleCount()
 			}
 			if got["test"] != "cliScenario" {
 				o.Violate("cli-name:"+desc, "series %v of %s is not named after the scenario (%s)", got, mf.GetName(), desc)
@@ -232,13 +255,17 @@ func c16CLI(c *core.Case, o *core.Outcome) {
 			o.Violate("cli-series:"+desc, "expected the setup series in the process-wide registry; saw none (%s)", desc)
 			return
 		}
-	} else if seen < 2 || samples != 6 {
-		o.Violate("cli-series:"+desc, "expected a setup series and iteration series with 6 samples in the process-wide registry; saw %d series and %d iteration samples (%s)", seen, samples, desc)
+	} else if seen < 2 || samples != uint64(total) {
+		o.Violate("cli-series:"+desc, "expected a setup series and iteration series with %d samples in the process-wide registry; saw %d series and %d iteration samples (%s)", total, seen, samples, desc)
+		return
+	}
+	if ns := pp["stages"]; ns > 0 && pp["nogw"] == 0 && (perResult["success"] != uint64(ns+10) || perResult["fail"] != 15) {
+		o.Violate("cli-late-failures:"+desc, "%d iterations passed and 15 failed (the first failure came after %d distinct stage names had been timed); the iteration metric holds success=%d fail=%d samples (%s)", ns+10, ns, perResult["success"], perResult["fail"], desc)
 		return
 	}
 	o.Events += int64(seen) + n.Load()
 	o.AddObs("runs_checked", 1)
-	o.Sig("cli:order=%d:fail=%d:nogw=%d:early=%d", pp["order"], pp["fail"], pp["nogw"], pp["early"])
+	o.Sig("cli:order=%d:fail=%d:nogw=%d:early=%d:stages=%d", pp["order"], pp["fail"], pp["nogw"], pp["early"], pp["stages"])
 }
 
 func c16Runs(c *core.Case, o *core.Outcome) {
@@ -279,7 +306,7 @@ func c16Runs(c *core.Case, o *core.Outcome) {
 		l := engine.NewLog()
 		ctx, cancel := context.WithCancel(context.Background())
 		defer cancel()
-		started, failedPlanned := new(atomic.Int64), new(atomic.Int64)
+		started, failedPlanned, blocked := new(atomic.Int64), new(atomic.Int64), new(atomic.Int64)
 		gate := make(chan struct{})
 		var once sync.Once
 		open := func() { once.Do(func() { close(gate) }) }
@@ -307,6 +334,12 @@ func c16Runs(c *core.Case, o *core.Outcome) {
 				if rp.Mode == "drops" && n == 1 {
 					<-gate
 				}
+				if rp.Mode == "interrupt" && n > int64(rp.N) {
+					if blocked.Add(1) == int64(p.Conc) {
+						go func() { cancel(); time.Sleep(80 * time.Millisecond); open() }()
+					}
+					<-gate
+				}
 				if rp.FailEvery > 0 && n%int64(rp.FailEvery) == 0 {
 					failedPlanned.Add(1)
 					t.Fail()
@@ -328,6 +361,9 @@ func c16Runs(c *core.Case, o *core.Outcome) {
 			}}
 		} else {
 			spec = engine.Spec{Mode: "users", Concurrency: p.Conc, MaxDurationMS: 30000, MaxIterations: uint64(rp.N)}
+			if rp.Mode == "interrupt" {
+				spec.MaxIterations = 0
+			}
 		}
 		spec.Scenario = rp.Scenario
 		spec.Labels = p.Labels
